@@ -76,6 +76,11 @@ class Decode:
     def requires(data):
         return is_bytes(data)
 
+    def samples():
+        return [(b"",), (b"GW5000-ET  ",), (b"\x00G\x00W",), (b"\x00G\x00",), (b"\xff\xfe\x01",), (b"\x80abc",),
+                (b"\x000\xd8\x00\x001",), (b"\xd8\x00\x00\x01",), (b"\xdc\x00\x00\x01\x00\x02",), (b"\x01",),
+                (b"\x00\x00\x00\x00",), (bytes(range(16)),), (b"\xd8\x00",), (b"ab\x1fcd",)]
+
 
 def _choose_table(ex):
     from contracts.sensor import sensor_tables
